@@ -6,6 +6,11 @@ CONSTANTS
   MaxCrashes = 1
   MaxCleanups = 1
   MaxSyncs = 1
+  Kinds = {"pre"}
+  MaxCloses = 0
+  MaxArchives = 0
+  MaxDeferred = 0
+  RefusedAsUpdate = FALSE
 VIEW View
 INVARIANT CrashRecoveredCoversReported
 INVARIANT CrashRecoveredIsSomeInMemoryState
